@@ -72,3 +72,7 @@ def check(ctx):
     satisfy.r_consistency_gate(ctx, 'R02.4')
     satisfy.r_single_caller(ctx, 'R02.5', 'named::to_witness_node', {satisfy.SAT})
     satisfy.r_single_caller(ctx, 'R02.6', 'named::to_commit_node', {'CompiledProgram::commit'})
+    satisfy.r_is_consistent_witness(ctx, 'R02.7')
+    if ctx.tier == 'thorough':
+        from .. import witness
+        witness.run(ctx, 'R02.W', ['W1', 'W3'])
